@@ -45,7 +45,10 @@ func (lb *LeastActiveLoadBalance) Handler(ctx context.Context, request []byte, n
 	if condition {
 		lb.rwlock.Lock()
 		if len(lb.actives) < n {
-			lb.actives = make([]int64, n)
+			// a server was added: the counts of the calls in flight are kept
+			actives := make([]int64, n)
+			copy(actives, lb.actives)
+			lb.actives = actives
 		}
 		lb.rwlock.Unlock()
 	}
